@@ -209,6 +209,9 @@ CORPUS = [
      "inputs": ["def a def b use a use b also a, b", "def a\n use a also a", "def a use c", "def a use"], "tag": "corpus-references"},
     {"grammar": "Model: defs+=Def uses+=Use; Def: 'def' name=ID; Use: 'use' target=[Def] ('also' others+=[Def][','])?;\n", "opts": {"auto_init_attributes": False},
      "inputs": ["def x use x def", "def q use q also q"], "tag": "corpus-references-noauto"},
+    {"grammar": "Model: xs+=A[eolterm] 'end';\nA[ws=' ']: 'a';\n", "opts": {}, "inputs": ["a a\nend", "a a end", "a\na end"], "tag": "corpus-eolterm-rule-ws"},
+    {"grammar": "Model: xs+=A[eolterm] 'end';\nA: 'a';\n", "opts": {}, "inputs": ["a a\nend", "a a end", "a\na end"], "tag": "corpus-eolterm"},
+    {"grammar": "Model: a=A 'x';\nA: &'x';\n", "opts": {}, "inputs": ["x", "y"], "tag": "corpus-predicate-root"},
     {"grammar": "Model: objs+=O; O: 'o' name=ID ('{' kids+=O '}')?;\nComment: /\\/\\/.*?$/;\n", "opts": {},
      "inputs": ["o a { o b // c\n o c {o d} }\n\n  o e", "// x\no a{}", "o a {\r\n o b }"], "tag": "corpus-nested-comment"},
 ]
